@@ -258,6 +258,11 @@ def main():
             if ma != mb:
                 cand += [w, f"m{w}", f"m{w}s", f"m {w} s", f"5 m{w}s", f"5{w}", f"5{w} m", f"{w}m", f"m/{w}"]
         c.cov.setdefault("terminals_that_differ", []).append(name)
+    # every Unicode whitespace / separator / control character around and inside otherwise valid inputs (the grammar ignores only its own WS)
+    import unicodedata
+    ws = [chr(i) for i in range(0x3100) if chr(i).isspace() or unicodedata.category(chr(i)) in ("Zs", "Zl", "Zp", "Cc", "Cf")]
+    for ch in ws:
+        cand += [f"{ch}m", f"m{ch}", f"5 m{ch}", f"{ch}5 m", f"m{ch}s", f"5{ch}m", f"m /{ch}s"]
     ndiff = 0
     acc = rej = 0
     for s in cand + strings:
